@@ -128,7 +128,7 @@ def perturb(g, rng, rel, ab):
 
 
 def run(ctx):
-    n = 80 if ctx.tier == "quick" else 1500
+    n = 240 if ctx.tier == "quick" else 3000
     done = 0
     while done < n and ctx.time_left() > 10:
         batch = gen_valid_graphs(ctx, min(80, n - done))
